@@ -241,9 +241,15 @@ func c13Exec(e *c13Engines, o c13Op, opIdx int) (snap string, kept []*c13Kept, d
 
 func c13Run(c *core.Ctx, idx int) {
 	lines := c13List(c)
+	if c.Rng.Intn(2) == 0 {
+		// Longer than the 4 KiB read block, with rules straddling block
+		// boundaries (what is read depends on what was read before).
+		lines = gen.PadToStraddle(c.Rng, lines, 1+c.Rng.Intn(3))
+		c.Event("lists_with_rules_straddling_block_boundaries", 1)
+	}
 	content := util.Lines(lines)
 	file := ""
-	if c.Rng.Intn(3) == 0 {
+	if c.Rng.Intn(2) == 0 {
 		dir, err := os.MkdirTemp(filepath.Join(c.Env.VerifDir, ".work"), "c13f.")
 		if err != nil {
 			c.Inconclusive("cannot create scratch directory")
